@@ -102,12 +102,13 @@ def real_spec(rng, algo):
             "auer_empirical": (rng.random() < 0.5) if algo == "Auer-real" else False, "obs_noise": noise}
 
 
-def stale_width_probe(rng, algo):
+def stale_width_probe(rng, algo, mode=None):
     """ellipsoidal PaVeBa-family run in which design 0 enters P in round 1 and is NOT useful (its region
     freezes with the round-1 width); designs 1 and 2 keep each other in S and later move to a place
     where 'can design 0 still eps-cover design 1' depends on design 0's OWN (stale) width"""
     import math
     m, K, delta = 2, 3, 0.1
+    mode = mode or rng.choice(["width", "witness"])
     eps = rng.choice([0.25, 0.5])
     h = rng.choice([0.25, 0.5])
     def scale(r):
@@ -124,6 +125,11 @@ def stale_width_probe(rng, algo):
     dprime = math.floor(dprime * g) / g
     far1 = [-5.0, 5.0]; far2 = [-5.0 + h / 4, 5.0 + h / 4]
     near1 = [-dprime, -dprime]; near2 = [-dprime - h / 4, -dprime + h / 4]
+    if mode == "witness":
+        # designs 1,2 jump to a place entirely dominated by design 0's STALE region: only a
+        # discarding step that (wrongly) takes witnesses from all of P would remove them in that round
+        D = 6 * h + 2 * eps
+        near1 = [-D, -D]; near2 = [-D - h / 4, -D + h / 4]
     means, hws = [], []
     for r in range(R + 2):
         if r < R:
@@ -133,7 +139,7 @@ def stale_width_probe(rng, algo):
         hws.append([[h, h]] * K)
     X = [[0.0, 0.0], [0.25, 0.0], [0.5, 0.0]]
     return {"algo": algo, "cone": "orthant2", "W": gen.CONES_2D["orthant2"][0], "X": X, "Y": [[0.0, 0.0], near1, near2], "eps": eps,
-            "valid_by_construction": False, "style": "stale-width-probe", "means": means, "hw": hws, "batch": 1, "contraction": 1.0,
+            "valid_by_construction": False, "style": "stale-" + mode + "-probe", "means": means, "hw": hws, "batch": 1, "contraction": 1.0,
             "costs": None, "budget": None, "auer_empirical": False, "no_shrink": True}
 
 
@@ -174,6 +180,8 @@ def make_spec(rng, algo, valid=None, small=True):
         return cover_adversarial(rng, algo)
     if algo in ("PaVeBa", "PaVeBaGP-DE", "PaVeBaPartialGP-ell") and valid is not True and rng.random() < 0.25:
         return stale_width_probe(rng, algo)
+    if algo in ("PaVeBaGP-IH", "PaVeBaPartialGP-rect") and valid is not True and rng.random() < 0.2:
+        return stale_width_probe(rng, algo, mode="witness")
     if algo.endswith("-real"):
         return real_spec(rng, algo)
     if algo == "Auer" and rng.random() < 0.3:
@@ -211,7 +219,8 @@ def make_spec(rng, algo, valid=None, small=True):
     auer_emp = (rng.random() < 0.6) if algo == "Auer" else False
     if auer_emp:
         style = "aniso" if valid else "wild"
-    design_factor = [rng.choice([0.25, 0.5, 1.0, 2.0, 4.0]) for _ in range(K)]
+    design_factor = [rng.choice([0.25, 0.5, 0.875, 1.0, 1.125, 1.25, 2.0, 4.0]) for _ in range(K)]
+    vary_widths = rng.random() < 0.5
     if style == "drift":
         R = rng.randint(4, 7)
         far = [rng.choice([-1, 1]) * rng.choice([1.5, 2.0, 3.0]) for _ in range(m)]
@@ -225,6 +234,8 @@ def make_spec(rng, algo, valid=None, small=True):
                 h = [shrink * design_factor[k] * rng.choice([0.5, 1.0]) for _ in range(m)]
             elif style == "aniso":
                 h = [shrink * rng.choice([0.25, 0.5, 1.0, 2.0]) for _ in range(m)]
+            elif vary_widths and style not in ("same", "touch", "drift"):
+                h = [shrink * design_factor[k]] * m
             else:
                 h = [shrink] * m
             if reg != "rect" and reg != "auer":
@@ -259,7 +270,8 @@ def make_spec(rng, algo, valid=None, small=True):
     spec = {"algo": algo, "cone": cone, "W": W, "X": X, "Y": Y, "eps": eps, "valid_by_construction": bool(valid and style not in ("same", "touch")),
             "style": style, "means": means, "hw": hws, "batch": rng.choice([1, 1, 2, 3, 7]) if algo not in ("PaVeBa", "Auer") else 1,
             "contraction": 1.0 if algo != "Auer" else rng.choice([8.0, 16.0, 32.0]),
-            "costs": None, "budget": None, "auer_empirical": auer_emp}
+            "costs": None, "budget": None, "auer_empirical": auer_emp,
+            "rho": [rng.choice([-0.25, 0.0, 0.5]) for _ in range(K)] if reg == "ell" else None}
     if algo.startswith("PaVeBaPartialGP") and rng.random() < 0.5:
         spec["costs"] = [rng.choice([1.0, 2.0, 0.5]) for _ in range(m)]
         spec["budget"] = rng.choice([None, 3.0, 6.0, 100.0])
@@ -283,6 +295,8 @@ def sched_of(spec):
 def run_spec(spec, max_steps=14):
     on = spec.get("obs_noise")
     extra = {"obs_noise": (lambda r, i: on[min(r, len(on) - 1)][i])} if on else {}
+    if spec.get("rho"):
+        extra["rho"] = spec["rho"]
     rec = algrun.run_algo(spec["algo"], spec["X"], spec["Y"], spec["W"], spec["eps"], sched_of(spec), max_steps=max_steps, **extra,
                           batch=spec.get("batch", 1), costs=spec.get("costs"), budget=spec.get("budget"),
                           contraction=spec.get("contraction", 1.0), auer_empirical=spec.get("auer_empirical", False))
